@@ -34,7 +34,7 @@ def build(tier):
 def gen_cases(tier, seed):
     rng = random.Random(seed)
     cases = []
-    reps = {"quick": 1, "search": 3, "thorough": 6}[tier]
+    reps = {"quick": 1, "search": 3, "thorough": 4}[tier]
     for rep in range(reps):
         for fam in ("f", "h"):
             for geo in GEOS:
@@ -52,11 +52,21 @@ def gen_cases(tier, seed):
     if tier == "thorough" :
         cases.append({"bseed": rng.randrange(1 << 48), "kind": "long_f", "fam": "f", "geo": "ring", "M": 4096, "nblocks": 3000,
                       "p": {"pinject": 1.0, "pdict": 0, "pfail": 0.0}, "arena": 400000, "p_realdec": 0.02})
+    if tier == "thorough":
+        for fam in ("f", "h"):
+            cases.append({"bseed": rng.randrange(1 << 48), "kind": "real2g_" + fam, "fam": fam, "arena": (2 << 20) + 4096, "model": False,
+                          "ring": False, "mirror": False})
+    if tier == "search":
+        # failing-input search: the real code alone, judged by the property oracles (a model mismatch would stop a script early)
+        for c in cases:
+            c["model"] = False
     return cases
 
 worker_init = sl.worker_init
 
 def run_case(st, case):
+    if case["kind"].startswith("real2g"):
+        return sl.run_scenario(st, case, lambda S, rng: sl.scen_real2g(S, rng, case["fam"]))
     def fn(S, rng):
         sl.scen_stream(S, rng, case["fam"], case["geo"], case["M"], case["nblocks"], case.get("p", {}))
     return sl.run_scenario(st, case, fn)
